@@ -3,6 +3,7 @@ CONSTANTS
   Cases = {}
   Expand <- Ident
   Slice = "halfopen"
+  IndexFrom = "chunk"
 INVARIANTS Conservation FilterIsSelection
 POSTCONDITION TraceAccepted
 CHECK_DEADLOCK FALSE
